@@ -379,6 +379,9 @@ type c14PipeCall struct {
 	Value   int64 `json:"value"`
 }
 
+// what the timed pipeline sequences exercised (reported in the evidence histogram)
+var c14PipeHist = map[string]int{}
+
 func c14GenPipe(r *rand.Rand, id int) (string, any, bool) {
 	questions := []c14Question{{Kind: "query", Arg: "up"}, {Kind: "query", Arg: "count(up)"}, {Kind: "config"}, {Kind: "flags"}, {Kind: "metadata", Arg: "foo_total"}, {Kind: "metadata", Arg: "bar"}}
 	var failNext atomic.Bool
@@ -501,7 +504,13 @@ func c14GenPipe(r *rand.Rand, id int) (string, any, bool) {
 			fmt.Sscanf(res, "%d", &c.Value)
 			if !c.Asked {
 				hit = true
+				if clock.Load() > lastSet[c.Q] {
+					c14PipeHist["pipeline:hit-after-time-passed"]++
+				}
 			} else {
+				if _, again := lastSet[c.Q]; again {
+					c14PipeHist["pipeline:asked-again-after-eviction"]++
+				}
 				lastSet[c.Q] = clock.Load()
 			}
 		}
@@ -1041,6 +1050,11 @@ func runC14(args []string) int {
 	}
 	cw.flush()
 	seqTime := time.Since(t0)
+	for k, v := range c14PipeHist {
+		for i := 0; i < v; i++ {
+			rep.hist(k)
+		}
+	}
 
 	// stress runs (several at a time: they mostly sleep in the fake server)
 	t1 := time.Now()
